@@ -171,6 +171,12 @@ func runMerge(
 	if !strings.HasPrefix(name, "heads/") {
 		return fmt.Errorf("%q is not a branch name", args[0])
 	}
+	// The branch itself is merged into, not a commit below it: with "main^" the
+	// name still resolves to heads/main but sum is its parent, and the result
+	// would be saved to a branch that never was at that commit.
+	if head, err := ref.GetRef(rs, name); err != nil || !bytes.Equal(head, sum) {
+		return fmt.Errorf("%q is not a branch name", args[0])
+	}
 	commits := [][]byte{sum}
 	commitNames := []string{displayableCommitName(args[0], sum)}
 	for _, s := range args[1:] {
